@@ -742,7 +742,21 @@ var cfgDomains = []string{"corp", "corp.", "lan.", "internal.example.com", "a.b"
 
 func (r *Rng) cfgForwarder(c *Ctx) string {
 	addr := r.pickS(cfgAddrs)
-	if r.Chance(6) {
+	if r.Chance(3) {
+		// a LONG value (the stored line is several kB, below the 64 KiB a line reader may refuse): a fail-over list of
+		// a few hundred servers, or a DoH URL with a long path
+		c.Stat("fwd:long-value")
+		if r.Bool() {
+			n := 300 + r.Intn(1500)
+			parts := make([]string, n)
+			for i := range parts {
+				parts[i] = fmt.Sprintf("10.%d.%d.%d", i/65536, (i/256)%256, i%256)
+			}
+			addr = strings.Join(parts, ",")
+		} else {
+			addr = "https://doh.example/" + strings.Repeat("p", 4000+r.Intn(3000)) + "#1.2.3.4"
+		}
+	} else if r.Chance(6) {
 		c.Stat("fwd:bad-addr")
 		addr = r.pickS(cfgBadAddrs)
 	}
